@@ -334,3 +334,315 @@ DRIVERS = {
     "STEPD": STEPDDriver,
     "LinearFourRates": LFRDriver,
 }
+
+
+# --------------------------------------------------------------------------
+# data drift
+
+
+class FakeKdqPartitioner:
+    """Stand-in for KDQTreePartitioner inside kdq_tree.py (decision-logic
+    obligations): records build/fill arguments; the divergence is a fresh real
+    per evaluation.  Contract assumed: none beyond determinism of the recorded
+    calls -- the real partitioner is verified on its own (C08)."""
+
+    log = None  # set per driver
+
+    def __init__(self, count_ubound=200, cutpoint_proportion_lbound=0.25):
+        self.count_ubound = count_ubound
+        self.cutpoint_proportion_lbound = cutpoint_proportion_lbound
+        self.built = None
+        self.fills = []
+        self.leaves = []
+
+    def build(self, data):
+        self.built = data
+        FakeKdqPartitioner.log.append(("build", data))
+
+    def leaf_counts(self, tree_id):
+        return [len(self.built)]
+
+    def fill(self, data, tree_id, reset=False):
+        self.fills.append((data, tree_id, reset))
+        FakeKdqPartitioner.log.append(("fill", data, tree_id, reset))
+
+    def kl_distance(self, tree_id1, tree_id2):
+        r = cur().real("kl")
+        FakeKdqPartitioner.log.append(("kl", tree_id1, tree_id2, r))
+        return r
+
+    @staticmethod
+    def _distn_from_counts(counts):
+        return counts
+
+
+class KdqDriverBase(Driver):
+    def install(self):
+        from menelaus.data_drift import kdq_tree as M
+
+        self.M = M
+        self.log = []
+        FakeKdqPartitioner.log = self.log
+        self.stack.enter_context(rebind(M, KDQTreePartitioner=FakeKdqPartitioner))
+        self.crit_calls = []
+
+    def _patch(self, d):
+        calls = self.crit_calls
+
+        def crit(ref_counts, sample_size):
+            r = cur().real("crit")
+            calls.append((list(ref_counts), sample_size, r))
+            return r
+
+        d._get_critical_kld = crit
+        return d
+
+
+class KdqStreamDriver(KdqDriverBase):
+    """cfg: window_size (int), dim"""
+
+    name = "KdqTreeStreaming"
+
+    def make(self):
+        c = self.ctx
+        if not hasattr(self, "params"):
+            pers = c.real("persistence")
+            c.assume(pers >= 0)
+            self.params = dict(window_size=self.cfg["window_size"], persistence=pers, alpha=c.real("alpha"),
+                               bootstrap_samples=2, count_ubound=1)
+        return self._patch(self.M.KdqTreeStreaming(**self.params))
+
+    def fresh_input(self, i):
+        d = self.cfg.get("dim", 1)
+        return obj_array([[self.ctx.real(f"x{i}_{j}") for j in range(d)]])
+
+
+class KdqBatchDriver(KdqDriverBase):
+    """cfg: rows (int), dim, set_ref (bool: call set_reference before the first update)"""
+
+    name = "KdqTreeBatch"
+    kind = "batch"
+    total_attr = "total_batches"
+    since_attr = "batches_since_reset"
+
+    def make(self):
+        c = self.ctx
+        if not hasattr(self, "params"):
+            self.params = dict(alpha=c.real("alpha"), bootstrap_samples=2, count_ubound=1)
+        return self._patch(self.M.KdqTreeBatch(**self.params))
+
+    def fresh_batch(self, tag):
+        d = self.cfg.get("dim", 1)
+        n = self.cfg.get("rows", 2)
+        return obj_array([[self.ctx.real(f"{tag}_{r}_{j}") for j in range(d)] for r in range(n)])
+
+    def fresh_input(self, i):
+        return self.fresh_batch(f"b{i}")
+
+
+class HDMDriver(Driver):
+    """cfg: cls ("HDDDM"/"CDBD"), detect_batch, statistic, features, rows.
+    The per-feature distances are fresh reals supplied through the public
+    ``divergence=`` callable; the histogram builder and the bootstrap estimate of
+    the first epsilon are replaced by recording stubs on the instance."""
+
+    name = "HDM"
+    kind = "batch"
+    total_attr = "total_batches"
+    since_attr = "batches_since_reset"
+
+    def install(self):
+        from menelaus.data_drift import histogram_density_method as M
+
+        self.M = M
+        self.div_calls = []
+        self.eps0_calls = []
+
+    def make(self):
+        from menelaus.data_drift import HDDDM, CDBD
+
+        c = self.ctx
+        calls = self.div_calls
+
+        def divergence(ref_density, test_density):
+            r = cur().real("dist")
+            cur().assume_unchecked(r >= 0)
+            calls.append((ref_density, test_density, r))
+            return r
+
+        if not hasattr(self, "params"):
+            stat = self.cfg.get("statistic", "stdev")
+            sig = c.real("significance") if stat == "stdev" else self.cfg.get("significance", 0.05)
+            self.params = dict(detect_batch=self.cfg["detect_batch"], statistic=stat, significance=sig, subsets=3)
+        cls = CDBD if self.cfg.get("cls") == "CDBD" else HDDDM
+        d = cls(divergence=divergence, **self.params)
+        e0 = self.eps0_calls
+
+        def est(reference, num_subsets, mins, maxes):
+            r = cur().real("eps0")
+            cur().assume_unchecked(r >= 0)
+            e0.append((len(reference), num_subsets, r))
+            return r
+
+        d._estimate_initial_epsilon = est
+        d._build_histograms = lambda dataset, mins, maxes: [("hist", id(dataset), f) for f in range(d._input_col_dim)]
+        return d
+
+    def fresh_batch(self, tag, rows=None):
+        f = 1 if self.cfg.get("cls") == "CDBD" else self.cfg.get("features", 1)
+        n = rows or self.cfg.get("rows", 4)
+        # concrete placeholder rows: every numeric effect of the data reaches the
+        # decision logic through the (symbolic) distances
+        k = len(self.inputs) + 1
+        return np.array([[float(k * 10 + r + j) for j in range(f)] for r in range(n)])
+
+    def fresh_input(self, i):
+        return self.fresh_batch(f"b{i}")
+
+    def restart_value(self):
+        return 2 if self.cfg["detect_batch"] == 1 else 1
+
+
+class FakeNNSP:
+    log = None
+
+    def __init__(self, k):
+        self.k = k
+
+    def build(self, s1, s2):
+        FakeNNSP.log.append(("build", s1, s2))
+        self.nnps_matrix = ("M", len(FakeNNSP.log))
+        self.v1 = ("v1", len(FakeNNSP.log))
+        self.v2 = ("v2", len(FakeNNSP.log))
+
+    @staticmethod
+    def compute_nnps_distance(M, v1, v2):
+        r = cur().real("nnps")
+        FakeNNSP.log.append(("dist", M, v1, v2, r))
+        return r
+
+
+class NNDVIDriver(Driver):
+    name = "NNDVI"
+    kind = "batch"
+    total_attr = "total_batches"
+    since_attr = "batches_since_reset"
+
+    def install(self):
+        from menelaus.data_drift import nndvi as M
+
+        self.M = M
+        self.log = []
+        FakeNNSP.log = self.log
+        self.stack.enter_context(rebind(M, NNSpacePartitioner=FakeNNSP))
+        self.thr_calls = []
+
+    def make(self):
+        c = self.ctx
+        if not hasattr(self, "params"):
+            self.params = dict(k_nn=2, sampling_times=2, alpha=c.real("alpha"))
+        d = self.M.NNDVI(**self.params)
+        calls = self.thr_calls
+
+        def thr(M_nnps, v_ref, v_test, sampling_times, alpha):
+            r = cur().real("theta")
+            calls.append((M_nnps, v_ref, v_test, sampling_times, alpha, r))
+            return r
+
+        d._compute_drift_threshold = thr
+        return d
+
+    def fresh_batch(self, tag):
+        d = self.cfg.get("dim", 1)
+        n = self.cfg.get("rows", 2)
+        return obj_array([[self.ctx.real(f"{tag}_{r}_{j}") for j in range(d)] for r in range(n)])
+
+    def fresh_input(self, i):
+        return self.fresh_batch(f"b{i}")
+
+
+class PCACDDriver(Driver):
+    """cfg: window_size, metric, online_scaling, num_pcs, dim, sample_period.
+    sklearn estimators are shape-correct stubs; per-component divergences are
+    fresh reals; the internal PageHinkley monitor is the real class."""
+
+    name = "PCACD"
+
+    def install(self):
+        from menelaus.data_drift import pca_cd as M
+
+        self.M = M
+        self.rec = []
+        npcs = self.cfg.get("num_pcs", 1)
+        sym_proj = self.cfg.get("sym_proj", False)
+        rec = self.rec
+
+        class Scaler:
+            def fit_transform(self, X):
+                rec.append(("scaler.fit_transform", X))
+                return np.asarray(X, dtype=object)
+
+            def transform(self, X):
+                rec.append(("scaler.transform", X))
+                return np.asarray(X, dtype=object)
+
+            def inverse_transform(self, X):
+                rec.append(("scaler.inverse_transform", X))
+                return np.asarray(X, dtype=object)
+
+        class FakePCA:
+            def __init__(self, ev):
+                self.ev = ev
+                self.components_ = [None] * npcs
+
+            def fit(self, X):
+                rec.append(("pca.fit", X))
+
+            def transform(self, X):
+                rec.append(("pca.transform", X))
+                X = np.asarray(X, dtype=object)
+                if not sym_proj:
+                    # lifecycle obligations: projections are irrelevant placeholders
+                    return np.zeros((X.shape[0], npcs))
+                return X[:, :npcs] if X.shape[1] >= npcs else np.zeros((X.shape[0], npcs))
+
+        self.stack.enter_context(rebind(M, StandardScaler=Scaler, PCA=FakePCA))
+
+    def make(self):
+        p = dict(window_size=self.cfg["window_size"], divergence_metric=self.cfg.get("metric", "intersection"),
+                 online_scaling=self.cfg.get("online_scaling", True), delta=self.ctx.real("ph_delta"),
+                 sample_period=self.cfg.get("sample_period", 0.5))
+        d = self.M.PCACD(**p)
+        rec = self.rec
+
+        def hist(sample, bins, bin_range):
+            rec.append(("hist", sample, bins, bin_range))
+            return {"h": len(rec)}
+
+        def kde(sample):
+            rec.append(("kde", sample))
+            return {"k": len(rec)}
+
+        def div(a, b):
+            r = cur().real("score")
+            rec.append(("div", a, b, r))
+            return r
+
+        d._build_histograms = hist
+        d._build_kde = kde
+        d._intersection_divergence = div
+        d._jensen_shannon_distance = div
+        return d
+
+    def fresh_input(self, i):
+        dim = self.cfg.get("dim", 2)
+        return obj_array([[self.ctx.real(f"x{i}_{j}") for j in range(dim)]])
+
+
+DRIVERS.update({
+    "KdqTreeStreaming": KdqStreamDriver,
+    "KdqTreeBatch": KdqBatchDriver,
+    "HDM": HDMDriver,
+    "NNDVI": NNDVIDriver,
+    "PCACD": PCACDDriver,
+})
